@@ -443,8 +443,26 @@ func deviate(t *rapid.T, m *MClaims, c Claim, literalOnly bool) {
 	case CCertRef:
 		m.CertRef = sp(drawInvalidCertRef(t, p))
 	case CSwComps:
-		kind := rapid.IntRange(0, 4).Draw(t, "sw.defect")
+		kind := rapid.IntRange(0, 5).Draw(t, "sw.defect")
 		switch {
+		case kind == 5: // null entries: alone, before / after / between well-formed components
+			good := drawValidComps(t, "sw.null")
+			switch rapid.IntRange(0, 3).Draw(t, "sw.nullshape") {
+			case 0:
+				m.Comps = []*MComp{{NilEntry: true}}
+			case 1:
+				m.Comps = append([]*MComp{{NilEntry: true}}, good...)
+			case 2:
+				m.Comps = append(good, &MComp{NilEntry: true})
+			default:
+				m.Comps = append(append([]*MComp{good[0]}, &MComp{NilEntry: true}), good[1:]...)
+			}
+			m.CompsNil = false
+			if p != P1 || genBool.Draw(t, "sw.null.noflag") {
+				m.NoMeas = nil
+			} else if m.NoMeas == nil {
+				m.NoMeas = u64p(1)
+			}
 		case kind == 0: // nothing at all
 			m.Comps = nil
 			m.NoMeas = nil
